@@ -1662,12 +1662,35 @@ namespace
                 in = steps.back();
                 in.z = clean_z;  // without the no-data values written under the previous mask
                 int cls = force >= 0 ? force : static_cast<int>(rng.below(n_field_classes));
-                if (rng.chance(0.85))
+                const bool small_edit = rng.chance(0.12);
+                if (small_edit)
+                {
+                    // same surface, a few more base levels or a few more masked nodes, nothing removed: an update that depends on
+                    // less than its full current inputs (change detection, incremental short cuts) shows here
+                    if (rng.chance(0.6))
+                    {
+                        for (long k = rng.range(1, 3); k > 0; --k)
+                            in.bl.push_back(rng.below(env.R.n));
+                        in.bl = sorted_unique(in.bl);
+                        in.custom_bl = true;
+                        in.bl_cls = "previous_plus_a_few_nodes";
+                    }
+                    else
+                    {
+                        if (in.mask.empty())
+                            in.mask.assign(env.R.n, 0);
+                        for (long k = rng.range(1, 3); k > 0; --k)
+                            in.mask[rng.below(env.R.n)] = 1;
+                        in.mask_cls = "previous_plus_a_few_nodes";
+                    }
+                    R.count("steps.small_edit_of_mask_or_base_levels");
+                }
+                else if (rng.chance(0.85))
                 {
                     in.field_cls = field_class_name(cls);
                     in.z = gen_field_spec(rng, env.g, env.R, cls);
                 }
-                if (rng.chance(0.35))
+                if (!small_edit && rng.chance(0.35))
                 {
                     auto m = gen_mask(rng, env.g, env.R, in.mask_cls);
                     // a mask, once set, stays set: "no mask" afterwards means an all-false mask
@@ -1675,7 +1698,7 @@ namespace
                         m.assign(env.R.n, 0);
                     in.mask = m;
                 }
-                if (rng.chance(0.35))
+                if (!small_edit && rng.chance(0.35))
                     in.custom_bl = gen_base_levels(rng, env.R, in.bl, in.bl_cls) || in.custom_bl;
                 // base levels previously customised stay customised
                 if (steps.back().custom_bl)
